@@ -12,6 +12,7 @@ specification (`TreeSpec`, discharged by C08).  All seven layers are covered by 
 -/
 import RioModel.Proofs.RouterTreeTop
 import RioModel.Props.C08
+import RioModel.Model.RouterTreeParse
 set_option linter.unusedSimpArgs false
 
 namespace Rio.C01
@@ -162,5 +163,39 @@ example : NodupIds [exR1, exR2] := by simp [NodupIds, exR1, exR2]
 /-- the host-bound rule matches; the host-less one is suppressed by the fallback policy -/
 example : ((Router.build exEnv [exR1, exR2]).matchReq exEnv exQ).map (·.id) = ["r1"] := by
   decide
+
+/-! Non-vacuity of the tree-level statements: W1's executable engine `stdEngine`, the rendering of
+the generator's pattern language, a rule with an upper-case literal and a marker in path and host,
+under `ignore_path_and_query_case`. -/
+
+def exT : TEnv := tenvOf ⟨false, false, true, false⟩
+
+def exR3 : Route :=
+  { id := "r3", priority := 0, scheme := none,
+    host := some (.dyn [.plus .lower, .lit '.', .lit 'c', .lit 'o', .lit 'm']), ips := none,
+    methods := none, excludeMethods := none, headers := [], datetime := none,
+    time := none, weekdays := none, path := .dyn [.lit '/', .lit 'A', .lit '/', .plus .digit] }
+
+def exQ3 : Req :=
+  { scheme := none, host := some "abc.com", method := none, headers := [], ip := none,
+    createdAt := none, path := "/a/12" }
+
+open Rio.Regex in
+example : TreeGood exT GoodPat exR3 := by
+  refine ⟨?_, ?_⟩
+  · intro p hp
+    have : p = [.lit '/', .lit 'A', .lit '/', .plus .digit] := by
+      simp [dynOf, exR3] at hp; exact hp.symm
+    subst this
+    exact ⟨(goodPatB_iff _).1 (by decide +kernel), by decide +kernel⟩
+  · intro p hp
+    have : p = [.plus .lower, .lit '.', .lit 'c', .lit 'o', .lit 'm'] := by
+      simp [exR3] at hp; exact hp.symm
+    subst this
+    exact ⟨(goodPatB_iff _).1 (by decide +kernel), by decide +kernel⟩
+
+set_option maxRecDepth 100000 in
+example : (RouterG.matchReq (towerTOps exT) (RouterG.build (towerTOps exT) [exR3]) exQ3).map (·.id)
+    = ["r3"] := by decide +kernel
 
 end Rio.C01
